@@ -17,7 +17,12 @@ const repoDir = "/repo"
 // the others by the sequential enumerator (seq binary, plain build).
 var engineChecks = map[string]bool{
 	"C01": true, "C02": true, "C03": true, "C04": true, "C05": true, "C06": true, "C07": true,
-	"C10": true, "C12": true, "C15": true, "C16": true, "C19": true,
+	"C10": true, "C11": true, "C12": true, "C13": true, "C15": true, "C16": true, "C19": true,
+}
+
+// seqChecks have a sequential-enumeration part (for C11 and C13 in addition to the engine part).
+var seqChecks = map[string]bool{
+	"C08": true, "C09": true, "C11": true, "C13": true, "C14": true, "C17": true, "C18": true,
 }
 
 func verifDir() string {
@@ -111,22 +116,42 @@ func doCheck(id, tier string) int {
 		return 2
 	}
 	defer os.RemoveAll(scratch)
-	var bin string
+	if !engineChecks[id] && !seqChecks[id] {
+		fmt.Fprintln(os.Stderr, "unknown check", id)
+		return 2
+	}
+	_ = os.Remove(filepath.Join(verifDir(), "evidence", id+".json"))
+	worst := 0
 	if engineChecks[id] {
-		bin, err = buildMC(scratch)
-	} else {
-		bin, err = buildSeq(scratch)
+		bin, err := buildMC(scratch)
+		if err != nil {
+			fmt.Fprintln(os.Stderr, "BUILD-FAILED:", err)
+			return 2
+		}
+		code, err := runCmd(verifDir(), os.Stdout, bin, "check", id, tier)
+		if err != nil {
+			fmt.Fprintln(os.Stderr, err)
+			return 2
+		}
+		worst = code
 	}
-	if err != nil {
-		fmt.Fprintln(os.Stderr, "BUILD-FAILED:", err)
-		return 2
+	if seqChecks[id] && worst != 2 {
+		bin, err := buildSeq(scratch)
+		if err != nil {
+			fmt.Fprintln(os.Stderr, "BUILD-FAILED:", err)
+			return 2
+		}
+		// a hybrid check merges its sequential coverage into the evidence the engine part wrote
+		code, err := runCmd(verifDir(), os.Stdout, bin, "check", id, tier)
+		if err != nil {
+			fmt.Fprintln(os.Stderr, err)
+			return 2
+		}
+		if code > worst {
+			worst = code
+		}
 	}
-	code, err := runCmd(verifDir(), os.Stdout, bin, "check", id, tier)
-	if err != nil {
-		fmt.Fprintln(os.Stderr, err)
-		return 2
-	}
-	return code
+	return worst
 }
 
 func doReplay(path string) int {
@@ -146,10 +171,10 @@ func doReplay(path string) int {
 	}
 	defer os.RemoveAll(scratch)
 	var bin string
-	if engineChecks[id] {
-		bin, err = buildMC(scratch)
-	} else {
+	if strings.Contains(string(b), `"sequential": true`) || !engineChecks[id] {
 		bin, err = buildSeq(scratch)
+	} else {
+		bin, err = buildMC(scratch)
 	}
 	if err != nil {
 		fmt.Fprintln(os.Stderr, "BUILD-FAILED:", err)
